@@ -3,6 +3,7 @@ CONSTANTS LoopDelayOwnFreeVars = FALSE
           LoopDurationMapped = TRUE
           ParamValuesReachDelays = TRUE
           ChecksBeforeSave = TRUE AliasesReachDurations = TRUE
+          DelayInputsForbidden = TRUE ExpandKeepsElements = TRUE
           Family = "cex"
 INIT Init
 NEXT Next
